@@ -165,7 +165,7 @@ DECISIVE = {
     'C18': {'prop-allocs', 'panic', 'crash'},
     'C09': {'ref-err-vs-ok', 'ref-ok-vs-err', 'ref-errfield', 'ref-errclass', 'corr-bitset', 'corr-err-vs-ok', 'corr-ok-vs-err', 'corr-errclass', 'corr-errfield', 'corr-bytes', 'panic', 'crash'},
     'C10': {'ref-value', 'corr-bytes', 'corr-value', 'corr-size', 'prop-rt-value', 'panic', 'crash'},
-    'C11': {'ref-value', 'ref-err-vs-ok', 'corr-unknown', 'corr-value', 'corr-bytes', 'corr-size', 'prop-size', 'corr-hop', 'panic', 'crash'},
+    'C11': {'prop-malformed', 'ref-value', 'ref-err-vs-ok', 'corr-unknown', 'corr-value', 'corr-bytes', 'corr-size', 'prop-size', 'corr-hop', 'panic', 'crash'},
     'C12': {'corr-resolve', 'corr-resolve-rejected', 'corr-resolve-accepted', 'corr-bytes', 'corr-value', 'prop-rt-value', 'panic', 'crash', 'universe-mismatch'},
     'C13': {'corr-value', 'prop-rt-value', 'prop-rt-fail', 'corr-encerr', 'corr-sizepanic', 'corr-err-vs-ok', 'corr-resolve-accepted', 'prop-invalid-size', 'prop-invalid-enc', 'prop-invalid-dec', 'prop-valid-rejected', 'prop-badarg', 'panic', 'crash'},
     'C15': {'corr-errclass', 'corr-err-vs-ok', 'corr-ok-vs-err', 'panic', 'crash'},
